@@ -1,0 +1,16 @@
+//go:build verif
+
+// Hooks for the deterministic-simulation checks in /verif (build tag verif).
+// Add-only: with the tag off this file does not exist for the compiler.
+
+package core
+
+// VerifResetTimestamps clears the client side timestamp batching globals
+// between simulated runs.
+func VerifResetTimestamps() {
+	tsLock.Lock()
+	defer tsLock.Unlock()
+	tsCount = 0
+	tsLimit = 0
+	tsLast = SuDate{}
+}
